@@ -232,26 +232,116 @@ class Points(ast.NodeVisitor):
         return node
 
 
+class Points2(Points):
+    """Second operator family: a type dropped from an isinstance tuple, an `if`
+    forced either way, the two positional arguments of a call swapped, a returned
+    value replaced by None, a string compared against replaced by another string,
+    slice bounds moved by one, an `else`/`elif` branch emptied."""
+
+    def visit_Compare(self, node):
+        self.generic_visit(node)
+        for i, c in enumerate(node.comparators):
+            if isinstance(c, ast.Constant) and isinstance(c.value, str) and self.hit(node, "compared string %r -> %r" % (c.value, c.value + "x")):
+                node.comparators[i] = ast.copy_location(ast.Constant(c.value + "x"), c)
+        return node
+
+    def visit_BinOp(self, node):
+        return self.generic_visit(node)
+
+    def visit_BoolOp(self, node):
+        self.generic_visit(node)
+        if len(node.values) >= 2 and self.hit(node, "last operand of %s dropped" % type(node.op).__name__):
+            return node.values[0] if len(node.values) == 2 else ast.copy_location(ast.BoolOp(node.op, node.values[:-1]), node)
+        return node
+
+    def visit_UnaryOp(self, node):
+        return self.generic_visit(node)
+
+    def visit_Constant(self, node):
+        return node
+
+    def visit_Expr(self, node):
+        return self.generic_visit(node)
+
+    def visit_AugAssign(self, node):
+        return self.generic_visit(node)
+
+    def visit_Break(self, node):
+        return node
+
+    def visit_Continue(self, node):
+        return node
+
+    def visit_Call(self, node):
+        self.generic_visit(node)
+        name = node.func.id if isinstance(node.func, ast.Name) else (node.func.attr if isinstance(node.func, ast.Attribute) else None)
+        if name == "isinstance" and len(node.args) == 2 and isinstance(node.args[1], ast.Tuple) and len(node.args[1].elts) >= 2:
+            for k in range(len(node.args[1].elts)):
+                if self.hit(node, "isinstance: %s dropped from the tuple" % ast.unparse(node.args[1].elts[k])):
+                    node.args[1] = ast.copy_location(ast.Tuple([e for j, e in enumerate(node.args[1].elts) if j != k], ast.Load()), node.args[1])
+                    break
+        elif len(node.args) == 2 and not node.keywords and not any(isinstance(a, ast.Starred) for a in node.args) and name not in ("isinstance", "format", "getattr", "hasattr", "range"):
+            if self.hit(node, "arguments of %s swapped" % name):
+                node.args = [node.args[1], node.args[0]]
+        return node
+
+    def visit_If(self, node):
+        self.generic_visit(node)
+        if self.hit(node, "if forced True: %s" % ast.unparse(node.test)[:50]):
+            node.test = ast.copy_location(ast.Constant(True), node.test)
+        elif self.hit(node, "if forced False: %s" % ast.unparse(node.test)[:50]):
+            node.test = ast.copy_location(ast.Constant(False), node.test)
+        elif node.orelse and not (len(node.orelse) == 1 and isinstance(node.orelse[0], ast.If)) and self.hit(node, "else branch emptied"):
+            node.orelse = []
+        if not node.body:
+            node.body = [ast.Pass()]
+        return node
+
+    def visit_Return(self, node):
+        self.generic_visit(node)
+        if node.value is not None and not (isinstance(node.value, ast.Constant) and node.value.value is None) and self.hit(node, "return None instead of %s" % ast.unparse(node.value)[:40]):
+            node.value = ast.copy_location(ast.Constant(None), node.value)
+        return node
+
+    def visit_Slice(self, node):
+        self.generic_visit(node)
+        for attr in ("lower", "upper"):
+            v = getattr(node, attr)
+            if isinstance(v, ast.Constant) and isinstance(v.value, int) and self.hit(node, "slice %s %d -> %d" % (attr, v.value, v.value + 1)):
+                setattr(node, attr, ast.copy_location(ast.Constant(v.value + 1), v))
+            elif isinstance(v, ast.UnaryOp) and isinstance(v.op, ast.USub) and isinstance(v.operand, ast.Constant) and self.hit(node, "slice %s -%d -> -%d" % (attr, v.operand.value, v.operand.value + 1)):
+                v.operand = ast.copy_location(ast.Constant(v.operand.value + 1), v.operand)
+        return node
+
+    def visit_Subscript(self, node):
+        self.generic_visit(node)
+        return node
+
+
+FAMILY = {1: Points, 2: Points2}
+
+
 def read_source(fname):
     with open(os.path.join(REPO, PKG, fname), newline="") as f:
         return f.read().replace("\r\n", "\n")
 
 
-def enumerate_points():
+def enumerate_points(ops=1):
     out = []
     for fname in FILES:
         tree = ast.parse(read_source(fname))
-        p = Points()
+        p = FAMILY[ops]()
         p.visit(tree)
         for pt in p.points:
             pt["file"] = fname
+            pt["ops"] = ops
             out.append(pt)
     return out
 
 
-def mutate(fname, index):
+def mutate(fname, index, ops=1):
     tree = ast.parse(read_source(fname))
-    p = Points(target=index)
+    p = FAMILY[ops](target=index)
     tree = p.visit(tree)
     ast.fix_missing_locations(tree)
     return ast.unparse(tree) + "\n"
@@ -296,7 +386,7 @@ def one(args):
     orig = os.path.join(REPO, PKG, pt["file"])
     out = dict(pt)
     try:
-        src = mutate(pt["file"], pt["index"])
+        src = mutate(pt["file"], pt["index"], pt.get("ops", 1))
         try:
             compile(src, pt["file"], "exec")
         except SyntaxError as e:
@@ -319,7 +409,7 @@ def one(args):
 
 
 def cmd_run(a):
-    pts = enumerate_points()
+    pts = enumerate_points(a.ops)
     if a.only:
         pts = [p for p in pts if p["file"] == a.only]
     if a.stride > 1:
@@ -376,9 +466,10 @@ def cmd_rerun(a):
         target = os.path.join(d, PKG, r["file"])
         orig = os.path.join(REPO, PKG, r["file"])
         out = {k: r[k] for k in ("file", "index", "line", "func", "what")}
+        out["ops"] = r.get("ops", 1)
         try:
             with open(target, "w") as f:
-                f.write(mutate(r["file"], r["index"]))
+                f.write(mutate(r["file"], r["index"], r.get("ops", 1)))
             mapped = checks_for(r["file"], r["func"])
             res = run_checks(d, mapped, 1, a.workers, slot)
             if not any(v["rc"] == 1 for v in res.values()):
@@ -441,7 +532,8 @@ def cmd_table(a):
 def main():
     ap = argparse.ArgumentParser()
     sub = ap.add_subparsers(dest="cmd", required=True)
-    sub.add_parser("list")
+    ls = sub.add_parser("list")
+    ls.add_argument("--ops", type=int, default=1, choices=[1, 2])
     r = sub.add_parser("run")
     r.add_argument("out")
     r.add_argument("--jobs", type=int, default=8)
@@ -452,6 +544,7 @@ def main():
     r.add_argument("--stride", type=int, default=1)
     r.add_argument("--offset", type=int, default=0)
     r.add_argument("--scratch", default="/tmp/bbv_automut")
+    r.add_argument("--ops", type=int, default=1, choices=[1, 2])
     rr = sub.add_parser("rerun")
     rr.add_argument("out")
     rr.add_argument("inp")
@@ -463,7 +556,7 @@ def main():
     t.add_argument("--survivors", action="store_true")
     a = ap.parse_args()
     if a.cmd == "list":
-        for p in enumerate_points():
+        for p in enumerate_points(a.ops):
             print(json.dumps(p))
     elif a.cmd == "run":
         cmd_run(a)
